@@ -373,6 +373,10 @@ impl TerminalHistory {
                 Self::report_error("Failed to read from file");
                 break;
             };
+            // A blank line is never a command (eg. left by two sessions appending at once)
+            if line.trim().is_empty() {
+                continue;
+            }
             history.push(line);
         }
         history
